@@ -179,7 +179,7 @@ TWO_CSV = None
 
 
 def two_config_csv(scratch_root):
-    """A CSV with two configurations: cfg_a = the sample's 'minimal' column; cfg_b = the same
+    """A CSV with two configurations: 'cfg x' = the sample's 'minimal' column; 'cfg_x' = the same
     with another pixel aspect ratio, several video parameters left to the base format
     ('default' cells) and an explicit quantisation matrix."""
     global TWO_CSV
@@ -199,7 +199,7 @@ def two_config_csv(scratch_root):
             v = r[col] if col < len(r) else ""
             a, b = v, v
             if k == "name":
-                a, b = "cfg_a", "cfg_b"
+                a, b = "cfg x", "cfg_x"  # distinct names that differ only in a character a file system may dislike
             elif k == "pixel_aspect_ratio_numer":
                 b = "4"
             elif k == "pixel_aspect_ratio_denom":
@@ -444,7 +444,7 @@ def run(ctx):
                 "triples_preemption_bound_2": [[ws[i][0] for i in tr] for tr in triples],
                 "structured_all_worker_schedules": [n for n, _ in structured],
                 "hash_seeds": [0] + list(seeds),
-                "two_configuration_csv": "serial run vs %d workers each run alone (cfg_a = sample 'minimal'; cfg_b = other pixel aspect ratio, 9 'default' video-parameter cells, explicit quantisation matrix); the serial run repeated under hash seeds %r" % (n_two, list(two_seeds)),
+                "two_configuration_csv": "serial run vs %d workers each run alone ('cfg x' = sample 'minimal'; 'cfg_x' = other pixel aspect ratio, 9 'default' video-parameter cells, explicit quantisation matrix); the serial run repeated under hash seeds %r" % (n_two, list(two_seeds)),
                 "execution_cap_per_subset": cap,
                 "capped_subsets": total.n["capped_subsets"],
                 "distinct_output_trees": total.ndistinct("trees"),
